@@ -79,4 +79,10 @@ CLAIMED["C10"] = (
     "windows must equal the model and all nodes' states/outputs must equal the static twin's.",
     "rex's window sizing assumption (violations counted, not asserted); exact ties not asserted; compiled runtime with generate_graphs graphs", "DESIGN.md §4 C10",
 )
+CLAIMED["C14"] = (
+    PBT + ": round trips and set equalities between synthetic records/graphs (own construction) and rex's conversion, stacking, indexing, networkx and filter functions",
+    "Generated ragged multi-episode data (incl. zero-length connections, unreceived and dropped messages, shadow input names), node subsets and both filter flags; "
+    "every conversion must preserve exactly the executed vertices, their times and the message relations.",
+    "synthetic records built with the public dataclasses; real records exercised by C01/C03/C13", "DESIGN.md §4 C14",
+)
 NOT_APPLICABLE = {}
